@@ -102,6 +102,8 @@ Crossbeam<'a, ItemType, BUFFER_SIZE, MAX_STREAMS> {
 
     fn create_stream_for_new_events(self: &Arc<Self>) -> (MutinyStream<'a, ItemType, Self, Arc<ItemType>>, u32) {
         let stream_id = self.streams_manager.create_stream_id();
+        // a "new events" listener must not see what a previous holder of this `stream_id` left unconsumed
+        while unsafe { self.receivers.get_unchecked(stream_id as usize) }.try_recv().ok().is_some() {}
         (MutinyStream::new(stream_id, self), stream_id)
     }
 
@@ -238,6 +240,8 @@ Crossbeam<'a, ItemType, BUFFER_SIZE, MAX_STREAMS> {
 
     #[inline(always)]
     fn drop_resources(&self, stream_id: u32) {
+        // releases the events this listener didn't consume -- while the `stream_id` is still ours
+        while unsafe { self.receivers.get_unchecked(stream_id as usize) }.try_recv().ok().is_some() {}
         self.streams_manager.report_stream_dropped(stream_id);
     }
 }
